@@ -549,6 +549,7 @@ type FuncContract struct {
 	PanicsIf  []*Clause // panics exactly when (not used for verification of callers unless nopanic)
 	Ghost     []*GhostUpd
 	LockMode  string
+	Placeholder bool // created by an `extend` block before the main block was seen
 }
 
 type GhostUpd struct {
@@ -607,6 +608,7 @@ type ContractSet struct {
 	RawSMT   map[string][]string // pkg -> raw smt prelude lines (mode-tagged "bv:"/"int:"/"")
 	Sorts    map[string]bool
 	Files    []string
+	Dups     []string
 }
 
 func NewContractSet() *ContractSet {
@@ -701,6 +703,21 @@ func (cs *ContractSet) loadFile(path string) error {
 	for _, l := range ls {
 		word, rest := splitWord(l.text)
 		switch word {
+		case "extend":
+			// extend func Name — adds (view-tagged) clauses to a contract declared in another block/file
+			curT, curA = nil, nil
+			kw, r2 := splitWord(rest)
+			if kw != "func" {
+				return fmt.Errorf("%s:%d: expected 'extend func <name>'", path, l.no)
+			}
+			nm, _ := splitWord(r2)
+			key := pkg + "." + nm
+			fc := cs.Funcs[key]
+			if fc == nil {
+				fc = &FuncContract{Key: key, Pkg: pkg, Loops: map[int]*LoopSpec{}, Opts: map[string]string{}, File: path, Line: l.no, Placeholder: true}
+				cs.Funcs[key] = fc
+			}
+			curF = fc
 		case "func", "extern", "lemmafn":
 			curT, curA = nil, nil
 			name, after := splitWord(rest)
@@ -728,8 +745,21 @@ func (cs *ContractSet) loadFile(path string) error {
 					fc.Lemma = true
 				}
 			}
-			if _, dup := cs.Funcs[fc.Key]; dup {
-				return fmt.Errorf("%s:%d: duplicate contract for %s", path, l.no, fc.Key)
+			if prev, dup := cs.Funcs[fc.Key]; dup && prev.Placeholder {
+				// the main block of a contract that an `extend` block referred to earlier
+				prev.Placeholder = false
+				prev.File, prev.Line, prev.Lemma = path, l.no, fc.Lemma
+				curF = prev
+				break
+			}
+			if prev, dup := cs.Funcs[fc.Key]; dup {
+				if !(fc.Extern && prev.Extern) {
+					return fmt.Errorf("%s:%d: duplicate contract for %s (also %s:%d)", path, l.no, fc.Key, prev.File, prev.Line)
+				}
+				// duplicate extern blocks across packages: the first one wins; the clauses of this one are parsed and dropped
+				cs.Dups = append(cs.Dups, fmt.Sprintf("%s:%d duplicates extern %s of %s:%d", path, l.no, fc.Key, prev.File, prev.Line))
+				curF = fc
+				break
 			}
 			cs.Funcs[fc.Key] = fc
 			curF = fc
